@@ -440,7 +440,25 @@ impl super::DebugSession {
             .debugger
             .as_mut()
             .ok_or_else(|| anyhow!("continue: debugger not initialized"))?;
-        let stop = dbg.continue_debugee_with_reason().context("continue")?;
+        let stop = match dbg.continue_debugee_with_reason() {
+            Ok(stop) => stop,
+            Err(e) => {
+                // already acknowledged: the failure is reported as a stop, so that the
+                // client does not keep believing the debuggee runs
+                self.begin_stop_epoch();
+                let thread_id = self.current_thread_id();
+                self.enqueue_event(InternalEvent::Output {
+                    category: "stderr",
+                    output: format!("continue failed: {e}\n"),
+                });
+                self.enqueue_event(InternalEvent::Stopped {
+                    reason: "exception".to_string(),
+                    thread_id,
+                    description: Some(format!("continue failed: {e}")),
+                });
+                return self.drain_events();
+            }
+        };
         self.emit_stop_reason(stop)
     }
 
